@@ -80,6 +80,10 @@ type server struct {
 	consumed int  // bytes of the client stream consumed so far
 	lits     []litRecord
 	reacts   []reaction // plan for the next synchronising literals
+	// enableMode: how ENABLE is answered: 0 grant what is available, 1 OK with an empty ENABLED
+	// response, 2 OK without any ENABLED response, 3 tagged NO, 4 tagged BAD (all conformant:
+	// a capability is enabled only if the server lists it in an ENABLED response)
+	enableMode int
 	cmdStart map[string]cmdInfo
 	done     chan struct{}
 }
@@ -191,7 +195,21 @@ func (s *server) serve() {
 		case "CAPABILITY":
 			fmt.Fprintf(s.conn, "* CAPABILITY %s\r\n%s OK done\r\n", s.cfg.caps, tag)
 		case "ENABLE":
-			if s.cfg.utf8Avail && strings.Contains(strings.ToUpper(line), "UTF8=ACCEPT") {
+			s.mu.Lock()
+			em := s.enableMode
+			s.mu.Unlock()
+			if em != 0 {
+				switch em {
+				case 1:
+					fmt.Fprintf(s.conn, "* ENABLED\r\n%s OK nothing enabled\r\n", tag)
+				case 2:
+					fmt.Fprintf(s.conn, "%s OK nothing enabled\r\n", tag)
+				case 3:
+					fmt.Fprintf(s.conn, "%s NO cannot enable\r\n", tag)
+				default:
+					fmt.Fprintf(s.conn, "%s BAD unknown command\r\n", tag)
+				}
+			} else if s.cfg.utf8Avail && strings.Contains(strings.ToUpper(line), "UTF8=ACCEPT") {
 				s.mu.Lock()
 				s.enabled = true
 				s.mu.Unlock()
@@ -318,9 +336,19 @@ func runCase(w *hx.W, rng *rand.Rand, cfg capCfg) {
 	note("LOGIN <%s> <%s>", u, p)
 	setReacts(srv, rng, 2)
 	wait("LOGIN", c.Login(genStr(rng, u), genStr(rng, p)).Wait)
-	if cfg.utf8Avail && rng.Intn(2) == 0 {
-		note("ENABLE UTF8=ACCEPT")
-		wait("ENABLE", func() error { _, err := c.Enable(imap.CapUTF8Accept).Wait(); return err })
+	if cfg.utf8Avail && rng.Intn(2) == 0 || !cfg.utf8Avail && rng.Intn(8) == 0 {
+		// the server may grant, answer OK without enabling anything, or refuse
+		if !cfg.utf8Avail || rng.Intn(2) == 0 {
+			srv.mu.Lock()
+			srv.enableMode = 1 + rng.Intn(4)
+			srv.mu.Unlock()
+		}
+		srv.mu.Lock()
+		em := srv.enableMode
+		srv.mu.Unlock()
+		note("ENABLE UTF8=ACCEPT (server answer mode %d)", em)
+		// (a NO/BAD answer is a conformant outcome, not a failure of the dialogue)
+		wait("ENABLE", func() error { c.Enable(imap.CapUTF8Accept).Wait(); return nil })
 	}
 	note("SELECT")
 	wait("SELECT", func() error { _, err := c.Select("INBOX", nil).Wait(); return err })
